@@ -334,6 +334,7 @@ pub const DFT_OPS: [&str; 12] = [
 pub const SVP_OPS: [&str; 3] = ["svp_apply_dft", "svp_apply_dft_to_dft", "svp_apply_dft_to_dft_assign"];
 pub const VMP_OPS: [&str; 2] = ["vmp_apply_dft", "vmp_apply_dft_to_dft"];
 pub const CNV_OPS: [&str; 4] = ["cnv_apply_dft", "cnv_pairwise_apply_dft", "cnv_by_const_apply", "cnv_self_apply_dft"];
+pub const CHAIN_OPS: [&str; 1] = ["dft_chain"];
 
 /// Executes one case against backend B.
 pub fn run_op<B: Bk>(c: &OpCase, o: &Opts) -> OpOut
@@ -447,6 +448,34 @@ where
                         (col_bytes(&big.data, lay2, c.ac, sz), canon, 0)
                     }
                 }
+            }
+            // ------------------------------------------------------------------ chains of transform-domain steps on one accumulator
+            "dft_chain" => {
+                let ad = fwd(&inp.a);
+                let bd = fwd(&inp.b);
+                let mut pp: SvpPPol<Vec<u8>, B> = SvpPPol::from_data(alloc_aligned::<u8>(m.bytes_of_svp_ppol(c.cols)), n, c.cols);
+                for col in 0..c.cols {
+                    m.svp_prepare(&mut pp, col, &inp.sc, col);
+                }
+                let mut res = dft_buf::<B>(n, c.cols, c.rs, extra, o.garbage);
+                m.vec_znx_dft_apply(1, 0, &mut res, c.rc, &inp.r0, c.rc);
+                let before = aligned_copy(&res.data);
+                let mut code = c.p as usize;
+                for _ in 0..c.q as usize {
+                    match code % 5 {
+                        0 => m.vec_znx_dft_add_assign(&mut res, c.rc, &ad, c.ac),
+                        1 => m.vec_znx_dft_sub_assign(&mut res, c.rc, &ad, c.ac),
+                        2 => m.vec_znx_dft_sub_negate_assign(&mut res, c.rc, &ad, c.ac),
+                        3 => m.vec_znx_dft_sub_negate_assign(&mut res, c.rc, &bd, c.bc),
+                        _ => m.svp_apply_dft_to_dft_assign(&mut res, c.rc, &pp, c.ac),
+                    }
+                    code /= 5;
+                }
+                let lay = Lay { n, cols: c.cols, w: wp };
+                if let Some(s) = stray_writes(&before, &res.data, lay, c.rc, c.rs, "result") {
+                    issues.push(s);
+                }
+                (col_bytes(&res.data, lay, c.rc, c.rs), canon_of_dft::<B>(&m, &res, c.rc), 0)
             }
             // ------------------------------------------------------------------ scalar-vector products
             "svp_apply_dft" | "svp_apply_dft_to_dft" | "svp_apply_dft_to_dft_assign" => {
